@@ -33,6 +33,11 @@ func c07BaseItem(r *rand.Rand, bystanders int) val.Item {
 		"ns": val.NS("1", "2", "3"),
 		"bs": val.BS("a", "b"),
 		"l2": val.List(val.Str("x")),
+		// bystanders no action ever names: values a float64 round trip would change
+		"zbig":   val.Num("12345678901234567890123456789012345678"),
+		"zbigns": val.NS("9007199254740993", "1152921504606846977"),
+		"zbigl":  val.List(val.Num("9007199254740993"), val.NS("0.1000000000000000000000000001")),
+		"zbigm":  val.Map(map[string]val.V{"id": val.Num("1152921504606846977"), "s": val.NS("9007199254740993")}),
 	}
 	opts := mon.GenOpts{MaxDepth: 2, NoEmptyLM: true, AllowEmptyB: true}
 	for i := 0; i < bystanders; i++ {
